@@ -213,11 +213,11 @@ fn fixed_state() -> std::collections::hash_map::RandomState {
 //@ props: C19
 //@ timeout: 1800
 //@ fns: rodbus_ffi::database::database_add_* / database_get_* / database_update_* / database_delete_* (add_entry, get_entry, update_entry, HashMap::remove), Database::new, server::<RequestHandlerWrapper as RequestHandler>::read_coil / read_discrete_input / read_holding_register / read_input_register
-//@ bounds: every script of 3 operations over {add, update, delete, get} x the four point types x two symbolic indices, compared with a reference Option<value> per (type, index); then a client read of both indices
+//@ bounds: every script of 2 operations over {add, update, delete, get} x the four point types x two symbolic indices, compared with a reference Option<value> per (type, index); then a client read of both indices
 //@ stubs: std RandomState::new = fixed SipHash keys (getrandom is a syscall)
 //@ outside: atomicity of update transactions against concurrent client reads - a thread-schedule property; Kani is sequential (the argument is one mutex held across get_reply, not checkable here)
 #[kani::proof]
-#[kani::unwind(5)]
+#[kani::unwind(4)]
 #[kani::stub(std::hash::RandomState::new, fixed_state)]
 fn c19_database_map_semantics() {
     let mut db = Database::new();
@@ -230,7 +230,7 @@ fn c19_database_map_semantics() {
     // reference: Option<u16> per index for the chosen type (bools as 0/1)
     let mut r: [Option<u16>; 2] = [None, None];
     let mut step = 0;
-    while step < 3 {
+    while step < 2 {
         let op: u8 = kani::any();
         kani::assume(op < 4);
         let which: usize = if kani::any() { 0 } else { 1 };
